@@ -374,7 +374,7 @@ fn show_ran(r: &Ran) -> String {
     )
 }
 
-/// an argument token of a built-in: `''` is the empty string; long options are not modelled
+/// an argument token of a built-in: `''` is the empty string, `\s` a space; long options are not modelled
 fn parse_args(ws: &[&str]) -> Option<Vec<Field>> {
     let mut v = vec![];
     for w in ws {
@@ -383,7 +383,7 @@ fn parse_args(ws: &[&str]) -> Option<Vec<Field>> {
         } else if w.starts_with("--") && w.len() > 2 {
             return None;
         } else {
-            v.push(Field::dummy(*w));
+            v.push(Field::dummy(w.replace("\\s", " ")));
         }
     }
     Some(v)
@@ -433,8 +433,28 @@ fn doc_simple(op: &str, cur: Option<usize>, prev: Option<usize>, snap: &Snap) ->
     }
 }
 
+/// FNV-1a (64 bit)
+fn fnv(s: &str) -> u64 {
+    s.bytes().fold(14695981039346656037u64, |h, b| (h ^ b as u64).wrapping_mul(1099511628211))
+}
+
+/// hash of the earlier steps, how many of them had a previous job, the last step in full
+fn compact_obs(obs: &[String]) -> String {
+    let Some((last, init)) = obs.split_last() else {
+        return String::new();
+    };
+    let with_prev = init.iter().filter(|o| !o.contains(" prev=- ")).count();
+    format!("h={}:{} | {}", fnv(&init.join(" | ")), with_prev, last)
+}
+
 /// Runs one history; returns (observation, oracle, visible state key after the last op).
 fn run_case(case: &str) -> (String, String, String) {
+    // `@ ` marks a case of the breadth-first families, whose every prefix is a case of its own:
+    // the observation is the hash of the earlier steps + the last step
+    let (compact, case) = match case.strip_prefix("@ ") {
+        Some(rest) => (true, rest),
+        None => (false, case),
+    };
     let ops: Vec<&str> = case
         .split(';')
         .map(|s| s.trim())
@@ -763,6 +783,9 @@ fn run_case(case: &str) -> (String, String, String) {
     let key = obs.last().cloned().unwrap_or_default();
     let key = key.split_once(' ').map(|x| x.1.to_string()).unwrap_or(key);
     let oracle = verdict.unwrap_or_else(|| if pre { "ok".into() } else { "ok-until-pre".into() });
+    if compact {
+        return (compact_obs(&obs), oracle, key);
+    }
     (obs.join(" | "), oracle, key)
 }
 
@@ -847,10 +870,13 @@ fn alphabet2() -> Vec<String> {
     ops
 }
 
-const OPERANDS: [&str; 40] = [
+const OPERANDS: [&str; 56] = [
     "%", "%%", "%+", "%-", "%1", "%2", "%3", "%4", "%5", "%9", "%0", "%01", "%a", "%ab", "%abc", "%b",
     "%ba", "%?b", "%?", "%?c", "%?a", "%x", "%-1", "%%%", "1", "2", "3", "a", "?b", "-", "''", "x", "+", "%+",
     "%18446744073709551615", "%18446744073709551616", "%1x", "%?ab", "%", "%-",
+    // signs, blanks, leading zeros, overflow: the edges of the number parse
+    "%+1", "%+2", "%+01", "+1", "%1\\s", "%\\s1", "%+1x", "%00", "%002", "%99999999999999999999", "%1a", "%+",
+    "%-2", "%+0", "%?+1", "01",
 ];
 
 const LIKELY: [&str; 14] = ["%", "%%", "%+", "%-", "%1", "%2", "%3", "%1", "%2", "%a", "%?b", "%ab", "1", "2"];
@@ -884,7 +910,7 @@ fn random_args(r: &mut Rng, options: &[&str], opt_den: u32, max_operands: usize)
 /// one operation of the mixed family (API operations, named jobs, built-ins, `cmd &`)
 fn random_mixed_op(r: &mut Rng, npids: usize) -> String {
     let p = 101 + r.below(npids);
-    let names = ["a", "ab", "abc", "b", "ba", "-", "ab"];
+    let names = ["a", "ab", "abc", "b", "ba", "-", "ab", "+1x", "1a", "0", "-1"];
     match r.below(20) {
         0 | 1 | 2 => format!(
             "job {p} {} {} {}",
@@ -911,7 +937,7 @@ fn random_mixed_op(r: &mut Rng, npids: usize) -> String {
             }
             format!("wait {a}").trim().to_string()
         }
-        17 => format!("wres {}", r.pick(&OPERANDS[..24])),
+        17 => format!("wres {}", r.pick(&OPERANDS)),
         18 => r.pick(&["disown", "rep", "rmdone 1", "rmchg"]).to_string(),
         _ => format!("cur {}", r.below(npids + 1)),
     }
@@ -962,10 +988,11 @@ fn main() {
                 continue;
             }
             let case = if hist.is_empty() { op.clone() } else { format!("{hist}; {op}") };
-            let (obs, oracle, nkey) = run_guarded(&case);
+            let marked = format!("@ {case}");
+            let (obs, oracle, nkey) = run_guarded(&marked);
             edges += 1;
             if edges % o.shard.1 == o.shard.0 {
-                emit(&case, &obs, &oracle);
+                emit(&marked, &obs, &oracle);
             }
             if seen.insert(nkey.clone()) {
                 queue.push_back((case, nkey, d + 1));
@@ -988,10 +1015,11 @@ fn main() {
                 continue;
             }
             let case = if hist.is_empty() { op.clone() } else { format!("{hist}; {op}") };
-            let (obs, oracle, nkey) = run_guarded(&case);
+            let marked = format!("@ {case}");
+            let (obs, oracle, nkey) = run_guarded(&marked);
             edges += 1;
             if edges % o.shard.1 == o.shard.0 {
-                emit(&case, &obs, &oracle);
+                emit(&marked, &obs, &oracle);
             }
             if seen.insert(nkey.clone()) {
                 queue.push_back((case, nkey, d + 1));
